@@ -14,6 +14,8 @@
 (*   after-disable    event data for a class after DISABLE_UNSOLICITED     *)
 (*   read-dropped     a READ received during the wait is neither answered  *)
 (*                    when the series ends nor superseded                  *)
+(*   superseded-answered  a deferred READ that a later request superseded   *)
+(*                    is answered all the same when the series ends        *)
 (*   not-immediate    another request received during the wait is not      *)
 (*                    answered on the spot                                 *)
 (*   unsol-disabled   any unsolicited response although the feature is off *)
@@ -27,6 +29,7 @@ MonInit == [L |-> LInit([confirm_to |-> 5000,
             failAt |-> -1,                 \* time the last data series was given up (-1 none)
             disabledAt |-> [c \in 1..3 |-> -1],
             rdOb |-> [has |-> FALSE, seq |-> -1, due |-> 0],
+            sup  |-> [has |-> FALSE, seq |-> -1],     \* a deferred READ that a later request superseded
             pendEnDis |-> FALSE]
 
 ClsOfHdrs(hdrs) == {hdrs[i].v - 1 : i \in {j \in 1..Len(hdrs) : hdrs[j].g = 60 /\ hdrs[j].v \in 2..4 /\ hdrs[j].q = 6}}
@@ -84,7 +87,13 @@ TxStep(m0, x, e, l) ==
         \* the reply that discharges a deferred READ
         m2 == IF ~x.uns /\ m1.rdOb.has /\ x.fir /\ x.seq = m1.rdOb.seq
                 THEN [m1 EXCEPT !.rdOb.has = FALSE] ELSE m1
-    IN [m2 EXCEPT !.L = ApplyTx(m2.L, x, e, l)]
+        \* a first fragment numbered like a superseded READ although this line's stimulus is not a request
+        \* with that number: the outstation answers a request that the master has abandoned
+        m3 == IF ~x.uns /\ m2.sup.has /\ x.fir /\ x.fc = 129 /\ x.seq = m2.sup.seq /\ ~e.panic
+                THEN [V(m2, "superseded-answered", l, "a deferred READ superseded by a later request was answered after the series")
+                        EXCEPT !.sup.has = FALSE]
+                ELSE m2
+    IN [m3 EXCEPT !.L = ApplyTx(m3.L, x, e, l)]
 
 MonStep(m, e, l) ==
     IF e.k = "reset" THEN [MonInit EXCEPT !.L = LInit(e.cfg, e.id, m.L.viol)]
@@ -116,8 +125,12 @@ MonStep(m, e, l) ==
                 THEN IF e.fc = 1 /\ e.wf /\ inWait /\ ~conf
                        THEN [m2 EXCEPT !.rdOb = [has |-> TRUE, seq |-> e.seq,
                                                  due |-> L0.uns.t + L0.cfg.confirm_to]]
-                       ELSE [m2 EXCEPT !.rdOb.has = FALSE]
-                ELSE IF e.k \in {"cut", "conn", "raw"} THEN [m2 EXCEPT !.rdOb.has = FALSE]
+                            \* a request numbered like the superseded READ makes any later reply with that number its own
+                       ELSE [m2 EXCEPT !.rdOb.has = FALSE,
+                                       !.sup = IF m2.rdOb.has /\ e.wf /\ e.seq # m2.rdOb.seq /\ ~L0.repeat
+                                                 THEN [has |-> TRUE, seq |-> m2.rdOb.seq]
+                                                 ELSE IF @.has /\ e.seq = @.seq THEN [@ EXCEPT !.has = FALSE] ELSE @]
+                ELSE IF e.k \in {"cut", "conn", "raw"} THEN [m2 EXCEPT !.rdOb.has = FALSE, !.sup.has = FALSE]
                 ELSE m2
         \* other requests received during the wait are answered immediately
         needsReply == isReq /\ Unicast(e, L0.cfg) /\ inWait /\ e.fc # 1 /\ e.fc \notin {6, 8, 10, 12}
